@@ -3,11 +3,13 @@
 package run
 
 import (
+	"encoding/json"
 	"fmt"
 	"go/ast"
 	"go/token"
 	"io"
 	"os"
+	"path/filepath"
 	"regexp"
 	"sort"
 	"strconv"
@@ -29,6 +31,8 @@ type Opts struct {
 	Harness   string
 	U, K      int
 	MapCap    int
+	AppendCap int
+	Preempt   int // bound on preemptions (-1 = unbounded)
 	Solver    string
 	Prune     bool
 	Race      bool
@@ -44,8 +48,10 @@ type Opts struct {
 	MaxModels int // distinct violation models to extract
 	Covers    int // cover witnesses to extract (for native validation)
 	MaxTerms  int // cap on the unroller (terms); exceeded => inconclusive
-	Spin      bool
+	Spin      bool // report unwinding failures of library loops as violations (class spin)
 	SpinU     int
+	HintDir   string // directory with <harness>[_fix].json hint files (optional)
+	WriteHint bool   // write the hint file after the fixpoint
 	Log       io.Writer
 }
 
@@ -267,7 +273,11 @@ func RunLoaded(l *Loaded, o Opts) *report.Report {
 	if o.MapCap > 0 {
 		m.MapCap = o.MapCap
 	}
+	if o.AppendCap > 0 {
+		m.AppendCap = o.AppendCap
+	}
 	m.MaxTerms = o.MaxTerms
+	m.MaxPreempt = o.Preempt
 	m.Fix = map[string]int64{}
 	for _, kv := range strings.Split(o.Fix, ",") {
 		if p := strings.SplitN(kv, "=", 2); len(p) == 2 {
@@ -276,6 +286,18 @@ func RunLoaded(l *Loaded, o Opts) *report.Report {
 		}
 	}
 	m.Verbose = o.Verbose
+	hinted := false
+	hintFile := ""
+	if o.HintDir != "" {
+		hintFile = filepath.Join(o.HintDir, o.Harness+".json")
+		if b, err := os.ReadFile(hintFile); err == nil {
+			var h struct{ Shared, Try []string }
+			if json.Unmarshal(b, &h) == nil && len(h.Shared)+len(h.Try) > 0 {
+				m.SetHints(h.Shared, h.Try)
+				hinted = true
+			}
+		}
+	}
 	for round := 0; ; round++ {
 		if m.Pruner != nil {
 			m.Pruner.Close()
@@ -289,7 +311,7 @@ func RunLoaded(l *Loaded, o Opts) *report.Report {
 		}
 		m.Round = round
 		m.K = o.K
-		if round < 2 && o.K > 10 {
+		if round < 2 && o.K > 10 && !hinted {
 			m.K = 10 // cheap discovery rounds for the shared-cell fixpoint
 		}
 		if err := m.Run(entry); err != nil {
@@ -321,6 +343,21 @@ func RunLoaded(l *Loaded, o Opts) *report.Report {
 		m.Pruner = nil
 	}
 	rep.EncSec = time.Since(t0).Seconds()
+	if o.WriteHint && hintFile != "" {
+		// merge with what is there (case splits of one harness share a file)
+		var h struct{ Shared, Try []string }
+		if b, err := os.ReadFile(hintFile); err == nil {
+			json.Unmarshal(b, &h)
+			m.SetHints(h.Shared, h.Try)
+		}
+		h.Shared, h.Try = m.Hints()
+		b, _ := json.MarshalIndent(h, "", " ")
+		os.MkdirAll(o.HintDir, 0o755)
+		os.WriteFile(hintFile, b, 0o644)
+	}
+	if o.Verbose {
+		m.DumpShared()
+	}
 	c := m.Ctx()
 	rep.Terms, rep.Threads, rep.Firings, rep.MaxLive, rep.Shared = c.NumTerms(), m.NumThreads(), m.Stats.Firings, m.Stats.MaxLive, m.NumShared()
 	rep.States = m.NumStates()
@@ -345,6 +382,15 @@ func RunLoaded(l *Loaded, o Opts) *report.Report {
 	defer sv.Close()
 	emitted := map[int]bool{}
 	viol := m.AggViol()
+	if o.Spin {
+		// a library loop that exceeds the unwinding bound in a harness whose loops are all
+		// bounded by design is a busy loop (the bound U is part of the stated claim)
+		for i := range viol {
+			if viol[i].Kind == "bound" && viol[i].ID == "unwind" && strings.Contains(viol[i].Pos, "aperturerobotics/util") {
+				viol[i].Kind = "spin"
+			}
+		}
+	}
 	var roots []*smt.Term
 	roots = append(roots, m.Assumes...)
 	for i := range viol {
@@ -424,7 +470,7 @@ func RunLoaded(l *Loaded, o Opts) *report.Report {
 			}
 			return vals[smt.Ref(t)] == "true"
 		}
-		tr := &vsched.Trace{Harness: o.Harness, Violation: label, Final: map[int]string{}, Inputs: map[string][]int64{}}
+		tr := &vsched.Trace{Harness: o.Harness, Violation: label, Final: map[int]string{}, Inputs: map[string][]int64{}, Files: m.FileList()}
 		for i, t := range m.Threads() {
 			tr.Threads = append(tr.Threads, vsched.TraceThread{ID: i, Name: t.Name, Parent: t.Parent, Site: t.Site})
 		}
@@ -438,6 +484,9 @@ func RunLoaded(l *Loaded, o Opts) *report.Report {
 				st := l.stmtOf(f.P, strings.HasPrefix(f.Op, "*") && strings.Contains(f.Op, " = "))
 				if f.Pos == "start" {
 					st = "start"
+				}
+				if f.Deferred && st != "?" {
+					st = strings.TrimSuffix(st, "#store") + "#defer"
 				}
 				fired = append(fired, fr{f, st})
 			}
@@ -453,7 +502,11 @@ func RunLoaded(l *Loaded, o Opts) *report.Report {
 		}
 		for _, f := range m.FinalLog {
 			if isTrue(f.G) {
-				tr.Final[f.Th] = l.stmtOf(f.P, strings.HasPrefix(f.Op, "*") && strings.Contains(f.Op, " = "))
+				st := l.stmtOf(f.P, strings.HasPrefix(f.Op, "*") && strings.Contains(f.Op, " = "))
+				if f.Deferred && st != "?" {
+					st = strings.TrimSuffix(st, "#store") + "#defer"
+				}
+				tr.Final[f.Th] = st
 			}
 		}
 		var sites []report.Site
